@@ -292,6 +292,16 @@ def sparse_cases():
                                          ['calc', [['rect', sub, subrows(vals[1])]]], ['calc', [x + [2.0]]]],
             'name-whatif-then-cell-whatif': [['calc', [name + [rows(vals[0])]]], ['calc', [x + [4.0]]], ['plain']],
         }
+        # on copies (C17): the copy takes the what-ifs, the original stays what it was
+        pop = {tuple(p_) for p_ in sh_['pop']}
+        blank = [(r, c) for r in range(full[2], full[4] + 1) for c in range(full[3], full[5] + 1) if (r, c) not in pop][1]
+        bc = ['blankcell', [0, 0, blank[0], blank[1]]]
+        for how in ('deepcopy', 'dill'):
+            seqs['copy-%s-whatif-rect' % how] = [['copy', how], ['calc', [rect + [rows(vals[0])]]], ['orig-plain'], ['plain'],
+                                                 ['calc', [name + [rows(vals[1])]]], ['orig-plain']]
+            seqs['copy-%s-blank-cell' % how] = [['copy', how], ['calc', [bc + [10.0]]], ['orig-plain'], ['plain'], ['calc', [bc + [-4.0], x + [2.0]]]]
+            seqs['calc-copy-%s-whatif' % how] = [['calc', [rect + [rows(vals[1])]]], ['copy', how], ['plain'], ['calc', [rect + [rows(vals[0])]]],
+                                                  ['orig-plain']]
         for qname, seq in seqs.items():
             for path in ('dict', 'file'):
                 yield {'k': 'sparse', 'shape': sname, 'seq': qname, 'spec': spec, 'ops': seq, 'path': path}
@@ -331,8 +341,9 @@ def check_sparse(case):
             got = got_of(tuple(k))
             if not isinstance(exp, W.Unsure) and not X.same(got, 0.0 if isinstance(exp, sut.Blank) else exp, 1e-9):
                 fails.append(('sparse|%s|%s' % (tagbase, what), '%s: %s gives %r, reference %r' % (G.node_id(spec, tuple(k)), what, got, exp)))
+    from ..gen import history as H
     with G.workdir() as d:
-        m = O.build(spec, path, d)
+        m = orig = O.build(spec, path, d)
         for op in case['ops']:
             if op[0] == 'compile':
                 in_ids = [O.node_of(m, O.target_id(spec, t + [None])) for t in op[2]]
@@ -348,15 +359,26 @@ def check_sparse(case):
                 got = {tuple(k): sut.one(rv) for k, rv in zip(outs, res)}
                 compare('compiled:' + op[1], got.get, W.evaluate(spec, O.to_cells(spec, ovs)), outs)
                 n += 1
-            elif op[0] in ('calc', 'plain'):
+            elif op[0] == 'copy':
+                orig = m
+                m = H.do_copy(m, op[1])
+            elif op[0] in ('calc', 'plain', 'orig-plain'):
                 ovs = op[1] if op[0] == 'calc' else []
-                inputs, missing = O.to_inputs(m, spec, ovs)
+                obj = orig if op[0] == 'orig-plain' else m
+                blanks = [o for o in ovs if o[0] == 'blankcell']
+                ovs_n = [o for o in ovs if o[0] != 'blankcell']
+                inputs, missing = O.to_inputs(obj, spec, ovs_n)
                 if missing:
                     return R(labels=['skipped:node-missing'])
-                sol = m.calculate(inputs=inputs) if inputs else m.calculate()
+                for o in blanks:
+                    # an unpopulated cell of a sparse rectangle has no node: its id is spelled like its populated neighbours'
+                    nb_ = O.node_of(obj, G.node_id(spec, (o[1][0], o[1][1]) + tuple(spec['cells'][0]['at'][2:])))
+                    inputs[str(nb_).rsplit('!', 1)[0] + '!' + G.a1(o[1][2], o[1][3])] = sut.override_value(W.const(o[2]))
+                ovs = ovs_n + [['cell', o[1], o[2]] for o in blanks]
+                sol = obj.calculate(inputs=inputs) if inputs else obj.calculate()
                 flat, _ = G.flatten(sol, supplied=set(inputs))
                 outs = [c['at'] for c in spec['cells'] if 'f' in c]
-                compare('calculate' if ovs else 'plain-calculate',
+                compare(('calculate' if ovs else 'plain-calculate') if op[0] != 'orig-plain' else 'original-after-copy-whatif',
                         lambda k: flat.get((G.sheet_id(spec, k[0], k[1]), k[2], k[3]), sut.BLANK), W.evaluate(spec, O.to_cells(spec, ovs)), outs)
                 n += 1
     seen, out = set(), []
@@ -448,6 +470,6 @@ def parts(tier, seed):
     return [
         ('hyp', 'models', 1200 if q else 12000, 10),
         ('hyp', 'formulas', 4000 if q else 60000),
-        ('enum', 'sparse-range-histories', list(sparse_cases()), 3, False),
+        ('enum', 'sparse-range-histories', [c for c in sparse_cases() if not any(op[0] == 'copy' for op in c['ops'])], 3, False),
         ('enum', 'alias-chains', list(alias_cases()), 2, False),
     ]
